@@ -102,7 +102,7 @@ var (
 	bg       = context.Background()
 	applyErr atomic.Int64 // Apply* materialisers that returned an error (cluster mode)
 	stats    struct {
-		worlds, freshOpens, memoHits, oracleEvals, confirmations, opsOK, opsErr, probeCalls atomic.Int64
+		worlds, freshOpens, memoHits, oracleEvals, confirmations, opsOK, opsErr, probeCalls, replays, selfLoops atomic.Int64
 	}
 )
 
@@ -367,7 +367,10 @@ func (w *world) refresh() tables {
 
 type namer struct{ K, O, T, R, P func(string) string }
 
-func (w *world) namer() namer {
+// namer renames ids to slot names. Ids that are in no slot (entities that no longer exist but still sit in a
+// cache) are renamed by rank among the dead ids of their kind that occur in this state (ids grow monotonically in
+// both modes, so the rank is independent of the raw values).
+func (w *world) namer(dead map[string][]int64) namer {
 	name := func(kind string, slots [2]int64) func(string) string {
 		return func(id string) string {
 			for i, s := range slots {
@@ -375,7 +378,18 @@ func (w *world) namer() namer {
 					return fmt.Sprintf("%s%d", kind, i+1)
 				}
 			}
-			return kind + "#" + id // not in a slot (e.g. stale cache entry of a deleted entity)
+			var n int64
+			fmt.Sscan(id, &n)
+			if dead == nil {
+				return kind + "#" + id
+			}
+			for rank, d := range dead[kind] {
+				if d == n {
+					return fmt.Sprintf("%s#dead%d", kind, rank+1)
+				}
+			}
+			dead[kind] = append(dead[kind], n)
+			return kind + "#?"
 		}
 	}
 	return namer{name("K", w.tok), name("O", w.org), name("T", w.team), name("R", w.role), name("P", w.mp)}
@@ -383,7 +397,7 @@ func (w *world) namer() namer {
 
 // absTables is the stored state with ids renamed to slot names (see the id-symmetry assumption), sorted.
 func (w *world) absTables(t tables) string {
-	n := w.namer()
+	n := w.namer(nil) // every id in a table belongs to a slot (ops create at most one live entity per slot)
 	var l []string
 	for _, r := range t.tok {
 		l = append(l, fmt.Sprintf("tok %s %s [%s] en=%s exp=%s", n.K(r[0]), r[1], r[2], r[3], r[4]))
@@ -409,35 +423,56 @@ func (w *world) absTables(t tables) string {
 
 // key is the canonical state: the stored state plus the contents of all three caches, ids renamed, sorted.
 func (w *world) key() string {
-	n := w.namer()
-	nI := func(f func(string) string) func(int64) string { return func(id int64) string { return f(fmt.Sprint(id)) } }
-	Ki, Oi, Ti, Ri, Pi := nI(n.K), nI(n.O), nI(n.T), nI(n.R), nI(n.P)
-	var l []string
-	for _, e := range w.rm.VerifPermCache() {
-		l = append(l, fmt.Sprintf("permCache %s %s/%s:%s -> %v %s", Ki(e.TokenID), e.Database, e.Measurement, e.Permission, e.Allowed, e.Source))
-	}
-	for _, d := range w.rm.VerifTokenCache() {
-		var s []string
-		for _, tm := range d.Teams {
-			s = append(s, fmt.Sprintf("team %s in %s en=%v", Ti(tm.ID), Oi(tm.OrganizationID), tm.Enabled))
+	perm, tokc, authc := w.rm.VerifPermCache(), w.rm.VerifTokenCache(), w.am.VerifTokenCache()
+	dead := map[string][]int64{}
+	render := func() []string {
+		n := w.namer(dead)
+		nI := func(f func(string) string) func(int64) string { return func(id int64) string { return f(fmt.Sprint(id)) } }
+		Ki, Oi, Ti, Ri, Pi := nI(n.K), nI(n.O), nI(n.T), nI(n.R), nI(n.P)
+		var l []string
+		for _, e := range perm {
+			l = append(l, fmt.Sprintf("permCache %s %s/%s:%s -> %v %s", Ki(e.TokenID), e.Database, e.Measurement, e.Permission, e.Allowed, e.Source))
 		}
-		for tid, rs := range d.Roles {
-			for _, r := range rs {
-				s = append(s, fmt.Sprintf("role %s on %s %s %v", Ri(r.ID), Ti(tid), r.DatabasePattern, r.Permissions))
+		for _, d := range tokc {
+			var s []string
+			for _, tm := range d.Teams {
+				s = append(s, fmt.Sprintf("team %s in %s en=%v", Ti(tm.ID), Oi(tm.OrganizationID), tm.Enabled))
 			}
-		}
-		for rid, ms := range d.MeasPerms {
-			for _, m := range ms {
-				s = append(s, fmt.Sprintf("mp %s on %s %s %v", Pi(m.ID), Ri(rid), m.MeasurementPattern, m.Permissions))
+			for tid, rs := range d.Roles {
+				for _, r := range rs {
+					s = append(s, fmt.Sprintf("role %s on %s %s %v", Ri(r.ID), Ti(tid), r.DatabasePattern, r.Permissions))
+				}
 			}
+			for rid, ms := range d.MeasPerms {
+				for _, m := range ms {
+					s = append(s, fmt.Sprintf("mp %s on %s %s %v", Pi(m.ID), Ri(rid), m.MeasurementPattern, m.Permissions))
+				}
+			}
+			sort.Strings(s)
+			l = append(l, fmt.Sprintf("tokenCache %s {%s}", Ki(d.TokenID), strings.Join(s, "; ")))
 		}
-		sort.Strings(s)
-		l = append(l, fmt.Sprintf("tokenCache %s {%s}", Ki(d.TokenID), strings.Join(s, "; ")))
+		for _, e := range authc {
+			l = append(l, fmt.Sprintf("authCache %s %v en=%v", Ki(e.TokenID), e.Permissions, e.Enabled))
+		}
+		sort.Strings(l)
+		return l
 	}
-	for _, e := range w.am.VerifTokenCache() {
-		l = append(l, fmt.Sprintf("authCache %s %v en=%v", Ki(e.TokenID), e.Permissions, e.Enabled))
+	l := render() // first pass collects the dead ids
+	if len(dead) > 0 {
+		for k := range dead {
+			d := dead[k]
+			sort.Slice(d, func(i, j int) bool { return d[i] < d[j] })
+			// de-duplicate
+			u := d[:0]
+			for i, x := range d {
+				if i == 0 || x != d[i-1] {
+					u = append(u, x)
+				}
+			}
+			dead[k] = u
+		}
+		l = render()
 	}
-	sort.Strings(l)
 	return w.abs + "\n--\n" + strings.Join(l, "\n")
 }
 
@@ -783,47 +818,64 @@ func failing(a answers, r ref) map[string]map[int]string {
 // ---------------------------------------------------------------------------------------------
 // running item lists
 
-type outcome struct {
-	key       string
-	parentKey string
-	enabled   bool
-	newFail   map[string][]string // kind -> descriptions of probes that fail after the last op and did not fail before it
-	decisions string
-}
-
-// runBFS starts from the scenario's seeded state (cold caches), runs the protocol, then hist with the protocol
-// after every op, then op c with protocol + oracle. The oracle is also evaluated in the parent state so that only
-// NEW failures are attributed to c. c < 0 judges the state after hist itself.
-func runBFS(sc *scenario, hist []int, c int) outcome {
-	w := newWorld(sc.mode, sc.start)
-	defer w.close()
-	a := w.protocol()
-	for _, h := range hist {
-		w.apply(h)
+// expand computes every successor of the state reached by hist in scenario sc. The state is rebuilt from the
+// scenario's seeded start (cold caches, then the protocol) by replaying hist with the protocol after every op; op c
+// is applied, the protocol run, and the oracle evaluated. The oracle is also evaluated in the parent state so that
+// only NEW failures are attributed to c. A world whose key did not change under c (failed or idempotent operation)
+// IS still the parent state and is reused for the next op; otherwise the parent is rebuilt from scratch.
+func expand(sc *scenario, hist []int, wantKey string, disabled *atomic.Int64, each func(c int, key, decisions string, newFail map[string][]string)) {
+	var (
+		w         *world
+		parentKey string
+		before    map[string]map[int]string
+	)
+	open := func() {
+		w = newWorld(sc.mode, sc.start)
+		a := w.protocol()
+		for _, h := range hist {
+			w.apply(h)
+			w.refresh()
+			a = w.protocol()
+		}
+		parentKey = w.key()
+		if wantKey != "" && parentKey != wantKey {
+			os.RemoveAll(root)
+			ev.Nondeterminism(fmt.Sprintf("C20 %s: replay of %v reached a different state", sc.name, names(hist)))
+		}
+		before = failing(a, w.fresh())
+		if len(hist) == 0 && wantKey == "" && len(before) > 0 { // the seeded state itself is judged once
+			each(-1, parentKey, "", describe(w.judge(a), nil))
+		}
+		stats.replays.Add(1)
+	}
+	for _, c := range sc.alpha {
+		if w == nil {
+			open()
+		}
+		if ops[c].enabled != nil && !ops[c].enabled(w) {
+			disabled.Add(1)
+			continue
+		}
+		w.apply(c)
 		w.refresh()
-		a = w.protocol()
+		a := w.protocol()
+		key := w.key()
+		// new failures (relative to the parent state) are confirmed on real fresh managers over this file before they count
+		nf := describe(failing(a, w.fresh()), before)
+		if len(nf) > 0 {
+			nf = describe(w.judge(a), before)
+		}
+		each(c, key, string(w.fresh().single), nf)
+		if key != parentKey {
+			w.close()
+			w = nil
+		} else {
+			stats.selfLoops.Add(1)
+		}
 	}
-	o := outcome{parentKey: w.key()}
-	if c < 0 {
-		o.key, o.enabled = o.parentKey, true
-		o.newFail = describe(w.judge(a), nil)
-		return o
+	if w != nil {
+		w.close()
 	}
-	if ops[c].enabled != nil && !ops[c].enabled(w) {
-		return o
-	}
-	o.enabled = true
-	before := failing(a, w.fresh())
-	w.apply(c)
-	w.refresh()
-	a = w.protocol()
-	o.key = w.key()
-	// new failures (relative to the parent state) are confirmed on real fresh managers over this file before they count
-	if o.newFail = describe(failing(a, w.fresh()), before); len(o.newFail) > 0 {
-		o.newFail = describe(w.judge(a), before)
-	}
-	o.decisions = string(w.fresh().single)
-	return o
 }
 
 func describe(after, before map[string]map[int]string) map[string][]string {
@@ -1074,31 +1126,21 @@ func main() {
 		var disabled atomic.Int64
 		res := xstate.BFS(xstate.Config{NCmds: len(sc.alpha), MaxDepth: sc.depth, Stop: run.TimeUp,
 			Expand: func(hist []int, wantKey string, leaf bool, visit func(int, string)) {
-				if len(hist) == 0 {
-					// root: the seeded state itself is judged once
-					o := runBFS(sc, nil, -1)
-					report(sc, nil, -1, o.newFail)
-				}
 				if leaf {
 					return // judged when it was generated
 				}
-				for _, c := range sc.alpha {
-					o := runBFS(sc, hist, c)
-					if wantKey != "" && o.parentKey != wantKey {
-						exit()
-						ev.Nondeterminism(fmt.Sprintf("C20 %s: replay of %v reached a different state", sc.name, names(hist)))
+				expand(sc, hist, wantKey, &disabled, func(c int, key, decisions string, nf map[string][]string) {
+					if c < 0 {
+						report(sc, nil, -1, nf)
+						return
 					}
-					if !o.enabled {
-						disabled.Add(1)
-						continue
-					}
-					report(sc, hist, c, o.newFail)
-					distinct.Store(o.decisions, true)
+					report(sc, hist, c, nf)
+					distinct.Store(decisions, true)
 					if len(hist)+1 == sc.depth {
-						samples.Add(map[string]any{"scenario": sc.name, "history": names(append(append([]int{}, hist...), c)), "fresh_decisions": o.decisions})
+						samples.Add(map[string]any{"scenario": sc.name, "history": names(append(append([]int{}, hist...), c)), "fresh_decisions": decisions})
 					}
-					visit(c, o.key)
-				}
+					visit(c, key)
+				})
 			}})
 		totalStates += res.States
 		totalTrans += res.Transitions
@@ -1187,7 +1229,7 @@ func main() {
 	run.Coverage["distinct_fresh_decision_vectors"] = nd
 	run.Coverage["probes_per_protocol_run"] = len(probes) * 4
 	run.Coverage["counters"] = map[string]int64{"worlds_built": stats.worlds.Load(), "oracle_evaluations": stats.oracleEvals.Load(), "fresh_manager_opens": stats.freshOpens.Load(),
-		"oracle_memo_hits": stats.memoHits.Load(), "ops_ok": stats.opsOK.Load(), "ops_returned_error": stats.opsErr.Load(), "permission_checks": stats.probeCalls.Load(),
+		"oracle_memo_hits": stats.memoHits.Load(), "parent_state_replays": stats.replays.Load(), "self_loop_transitions_reusing_parent": stats.selfLoops.Load(), "ops_ok": stats.opsOK.Load(), "ops_returned_error": stats.opsErr.Load(), "permission_checks": stats.probeCalls.Load(),
 		"cluster_apply_materialise_errors": applyErr.Load(), "violations_confirmed_on_real_fresh_managers": stats.confirmations.Load(), "raw_violating_transition_classes": int64(len(reps))}
 	run.Coverage["alphabet"] = opNames(all)
 	run.Coverage["explanation"] = "state = history; every transition replays seed+history+op on fresh real managers over a fresh copy of a migrated SQLite file, running the probe protocol after every op; states de-duplicated by sorted dump of all auth/RBAC tables + permCache + tokenCache + verified-token cache with ids renamed to slot names; the fresh-manager reference is memoised per raw table dump (it is a function of the stored state only)"
@@ -1202,8 +1244,11 @@ func main() {
 	run.Assume("cluster-apply mode: single node that is the Raft leader; the proposer applies each command synchronously through the real ClusterFSM whose callbacks call the real Apply* materialisers as cmd/arc/main.go wires them; hashicorp/raft replication and follower lag are not explored")
 	run.Assume("a decision is the Allowed bit obtained as the HTTP path obtains it: AuthManager.VerifyToken(token value) then RBACManager.CheckPermission / CheckPermissionsBatch with that TokenInfo; a value that no longer authenticates is its own outcome; Source/Reason strings are not compared")
 	exit()
+	stopProf()
 	run.Finish()
 }
+
+var stopProf = func() {}
 
 func head(s []string, n int) []string {
 	if len(s) > n {
